@@ -34,6 +34,31 @@ def _has_sym(obj):
     return False
 
 
+class ObjMatrix:
+    """np.matrix over object dtype (numpy's own matrix class mishandles flatten/asarray for object entries)"""
+    def __init__(self, a):
+        self.a = np.atleast_2d(a)
+
+    @property
+    def shape(self):
+        return self.a.shape
+
+    def __mul__(self, o):
+        ob = o.a if isinstance(o, ObjMatrix) else np.asarray(o)
+        if ob.ndim == 1:
+            ob = ob.reshape(-1, 1)
+        return ObjMatrix(self.a @ ob)
+
+    def flatten(self):
+        return ObjMatrix(self.a.reshape(1, -1))
+
+    def __array__(self, dtype=None, copy=None):
+        return self.a
+
+    def __getitem__(self, k):
+        return self.a[k]
+
+
 class _Linalg:
     def __init__(self, shim):
         self._shim = shim
@@ -103,6 +128,11 @@ class NumpyShim:
 
     def ascontiguousarray(self, obj, dtype=None):
         return self.asarray(obj, dtype)
+
+    def matrix(self, data, *a, **k):
+        if _has_sym(data):
+            return ObjMatrix(np.array(data, dtype=object))
+        return np.matrix(data, *a, **k)
 
     def float64(self, v=0.0):
         if is_sym(v):
